@@ -152,9 +152,112 @@ namespace
         return out;
     }
 
+    // ---- memory backend: record(ts, "x") writes (time, delta) entries under ":memory:nodes.record.x"; replay(key, recordable_id) reads
+    // them back by ABSOLUTE time, in a run that may start later than the recording did. The replayed stream must be exactly the
+    // original ticks that lie in the replay run's window - same cycles, and nothing at a cycle where the original did not tick.
+    int g_mem_start = -1;
+    template <typename Sh>
+    Outcome run_shape_mem(const std::vector<std::string> &script, int start, const std::string &shape)
+    {
+        Outcome out;
+        constexpr const char *REC_KEY = ":memory:nodes.record.x";
+        using S = typename Sh::S;
+        Run r1, r2;
+        r1.script = script; r1.cycles = static_cast<int>(script.size());
+        r2.cycles = 0;   // the replay graph has no writer
+        Value recording;
+        std::string exc;
+        try
+        {
+            {
+                g = &r1;
+                Wiring w;
+                auto wr = wire<Writer<Sh>>(w);
+                wire<stdlib::record>(w, wr, Str{"x"});
+                wire<Probe<Sh>>(w, wr);
+                GraphBuilder gb = std::move(w).finish();
+                GraphExecutorBuilder eb;
+                eb.graph_builder(std::move(gb)).start_time(MIN_ST).end_time(MIN_ST + TimeDelta{r1.cycles + 4});
+                auto ex = eb.make_executor();
+                ex.view().run();
+                const ValueView rec = ex.view().graph().global_state().get(REC_KEY);
+                if (rec.valid()) recording = Value{rec};
+            }
+            {
+                g = &r2;
+                Wiring w;
+                auto rp = wire<stdlib::replay, S>(w, Str{"x"}, arg<"recordable_id">(Str{"nodes.record"})).template as<S>();
+                wire<Probe<Sh>>(w, rp);
+                GraphBuilder gb = std::move(w).finish();
+                if (recording.has_value()) gb.global_state().set(REC_KEY, recording);
+                GraphExecutorBuilder eb;
+                eb.graph_builder(std::move(gb)).start_time(MIN_ST + MIN_TD * start).end_time(MIN_ST + TimeDelta{r1.cycles + 4});
+                auto ex = eb.make_executor();
+                ex.view().run();
+            }
+        }
+        catch (const std::exception &e) { exc = e.what(); }
+        g = nullptr;
+        if (!exc.empty()) { out.violation = "run threw: " + exc; return out; }
+        out.ticks = r1.probe.size();
+        std::ostringstream sig;
+        sig << "M" << start << Sh::name << "#";
+        for (auto &t : r2.probe) sig << t.t << "=" << t.value << ",";
+        out.sig = sig.str();
+        for (auto &t : r1.probe) t.delta = prune_delta(t.delta);
+        for (auto &t : r2.probe) t.delta = prune_delta(t.delta);
+        auto normalise = [&](std::vector<Tick> &v) {
+            std::vector<Tick> o; std::string last = "<invalid>";
+            for (auto &t : v) { if (prune_delta(t.delta) != "<>" || t.value != last) { o.push_back(t); last = t.value; } }
+            v.swap(o);
+        };
+        std::set<long> raw_cycles;   // every cycle in which the original ticked at all (empty deltas included)
+        for (auto &t : r1.probe) if (t.t >= start) raw_cycles.insert(t.t);
+        normalise(r1.probe); normalise(r2.probe);
+        std::vector<Tick> expected;
+        for (auto &t : r1.probe) if (t.t >= start) expected.push_back(t);
+        out.nontrivial = start > 0 && expected.size() < r1.probe.size() && !expected.empty();
+        const bool scalar = shape == "ts" || shape == "str";
+        const std::string ctx_text = "\n original:" + show(r1.probe) + "\n replayed from cycle " + std::to_string(start) + ":" + show(r2.probe);
+        if (start == 0 || scalar)
+        {
+            if (expected != r2.probe) out.violation = "memory-backend replay differs from the recorded ticks in its window:" + ctx_text;
+            return out;
+        }
+        // a run that starts mid-recording starts from an empty collection: removals of elements it never saw re-capture differently (or not at
+        // all). Required: no tick at a cycle where the original did not tick; every original tick that adds / modifies something is there.
+        std::set<long> orig_cycles, replay_cycles;
+        for (auto &t : expected) orig_cycles.insert(t.t);
+        for (auto &t : r2.probe) replay_cycles.insert(t.t);
+        for (long c : replay_cycles) if (!raw_cycles.count(c)) { out.violation = "memory-backend replay ticks in cycle " + std::to_string(c) + " where the original did not tick:" + ctx_text; return out; }
+        for (auto &t : expected)
+        {
+            const bool removal_only = t.delta.find('=') == std::string::npos && t.delta.find('+') == std::string::npos && shape != "tsl";
+            (void)removal_only;
+        }
+        if (shape == "tsl")
+        {
+            // list deltas name only the modified elements: they must match exactly
+            if (expected.size() != r2.probe.size()) { out.violation = "memory-backend replay has " + std::to_string(r2.probe.size()) + " ticks in its window, the original " + std::to_string(expected.size()) + ":" + ctx_text; return out; }
+            for (std::size_t i = 0; i < expected.size(); ++i)
+                if (expected[i].t != r2.probe[i].t || expected[i].delta != r2.probe[i].delta) { out.violation = "memory-backend replay delta differs in cycle " + std::to_string(expected[i].t) + ":" + ctx_text; return out; }
+        }
+        return out;
+    }
+
     Outcome run_desc_plain(const std::string &desc);
     Outcome run_desc(const std::string &desc)
     {
+        // "M<s>:<shape>|..." memory (absolute-time) backend, replay run starting at cycle s
+        if (desc[0] == 'M' && desc.find(':') != std::string::npos && desc.find(':') < desc.find('|'))
+        {
+            const auto colon = desc.find(':');
+            g_mem_start = std::stoi(desc.substr(1, colon - 1));
+            Outcome o;
+            try { o = run_desc_plain(desc.substr(colon + 1)); } catch (...) { g_mem_start = -1; throw; }
+            g_mem_start = -1;
+            return o;
+        }
         // "R:<shape>|..." replays the recorded buffer itself
         if (desc.rfind("R:", 0) == 0) { g_raw = true; Outcome o; try { o = run_desc_plain(desc.substr(2)); } catch (...) { g_raw = false; throw; } g_raw = false; if (o.violation) o.violation = "(recorded buffer fed back as it is) " + *o.violation; return o; }
         return run_desc_plain(desc);
@@ -164,6 +267,15 @@ namespace
         const auto bar = desc.find('|');
         const std::string shape = desc.substr(0, bar);
         std::vector<std::string> script = split(desc.substr(bar + 1), ';');
+        if (g_mem_start >= 0)
+        {
+            if (shape == "ts") return run_shape_mem<ShapeTS>(script, g_mem_start, shape);
+            if (shape == "str") return run_shape_mem<ShapeStr>(script, g_mem_start, shape);
+            if (shape == "tss") return run_shape_mem<ShapeTSS>(script, g_mem_start, shape);
+            if (shape == "tsd") return run_shape_mem<ShapeDictI>(script, g_mem_start, shape);
+            if (shape == "tsl") return run_shape_mem<ShapeTSL>(script, g_mem_start, shape);
+            throw verif::HarnessError("memory mode: unknown shape " + shape);
+        }
         if (shape == "ts") return run_shape<ShapeTS>(script);
         if (shape == "str") return run_shape<ShapeStr>(script);
         if (shape == "signal") return run_shape<ShapeSignal>(script);
@@ -221,6 +333,47 @@ void verif_enumerate(verif::Ctx &ctx)
         {"tsd", {"s1=5", "s1=6", "e1", "c", "s2=5"}, 3, 2},
         {"tsds", {"a1:1", "a1:2", "r1:1", "e1"}, 3, 2},
     };
+    // memory (absolute-time) backend: every history x every start cycle of the replaying run
+    {
+        std::vector<Space> mem = {
+            {"ts", {"v1", "v2"}, 1, th ? 6 : 5},
+            {"str", {"a", "b"}, 1, th ? 5 : 4},
+            {"tss", {"+1", "+2", "-1", "c"}, 1, th ? 5 : 4},
+            {"tsd", {"s1=5", "s1=6", "s2=5", "e1"}, 1, th ? 5 : 4},
+            {"tsl", {"0=1", "0=2", "1=1"}, 1, th ? 5 : 4},
+        };
+        for (auto &sp : mem)
+        {
+            std::vector<std::string> lists;
+            gen_lists(sp.alphabet, sp.max_len, lists);
+            std::vector<int> idx(static_cast<std::size_t>(sp.cycles), 0);
+            while (true)
+            {
+                if (ctx.next_is_mine())
+                for (int start = 0; start <= sp.cycles; ++start)
+                {
+                    std::string desc = "M" + std::to_string(start) + ":" + sp.shape + "|";
+                    for (int c = 0; c < sp.cycles; ++c) desc += (c ? ";" : "") + lists[static_cast<std::size_t>(idx[static_cast<std::size_t>(c)])];
+                    ++ctx.evaluations; ++ctx.traces;
+                    Outcome o = run_desc(desc);
+                    ctx.transitions += o.ticks;
+                    ctx.state(o.sig);
+                    if (o.nontrivial) ctx.nontriv(desc);
+                    ctx.count("memcases_" + sp.shape);
+                    if (o.violation)
+                    {
+                        Outcome o2 = run_desc(desc);
+                        if (!o2.violation || *o2.violation != *o.violation) throw verif::HarnessError("case not reproducible: " + desc);
+                        ctx.violation(desc, *o.violation, "memory " + sp.shape + ": " + o.violation->substr(0, 50));
+                    }
+                    else if (ctx.evaluations % 9973 == 1) ctx.sample("cases", desc);
+                }
+                int p = 0;
+                while (p < sp.cycles && ++idx[static_cast<std::size_t>(p)] == static_cast<int>(lists.size())) { idx[static_cast<std::size_t>(p)] = 0; ++p; }
+                if (p == sp.cycles) break;
+            }
+        }
+    }
     for (auto &sp : spaces)
     {
         std::vector<std::string> lists;
